@@ -268,6 +268,12 @@ def model2(u, k):
     return math.cos(1.5 * u[0] + 0.7 * k) * (1.0 + (u[1] if len(u) > 1 else 0.0)) ** 2 - 0.5 * u[0]
 
 
+def model3(u, k):
+    """outputs with different anisotropy and magnitude: output 0 varies in the first direction only, output 1 (larger) in the last one"""
+    last = u[-1] if len(u) > 1 else u[0]
+    return math.exp(2.5 * u[0]) if k == 0 else 7.0 * math.exp(-3.0 * last) * (1.0 + 0.1 * k)
+
+
 def domain(info):
     d = info["dims"]
     if info.get("a"):
@@ -350,6 +356,8 @@ def steps_for(info, cand, tier):
         S.append(mk("loadvalues", "-loadvalues", "loadvalues", mats=[["-valsfile", "m", "vals", nload, 1, [1.0] * nload]], writes=True))
     if th and outs > 0:
         S.append(mk("loadvalues+f2", "-l", "loadvalues", mats=[["-vf", "m", "vals", nload, outs, values_at(info, lp, model2)]], writes=True))
+        if outs > 1:
+            S.append(mk("loadvalues+f3", "-l", "loadvalues", mats=[["-vf", "m", "vals", nload, outs, values_at(info, lp, model3)]], writes=True))
         S.append(mk("loadvalues+badrows", "-l", "loadvalues", mats=[["-vf", "m", "vals", nload + 1, outs, values_at(info, lp, model) + [0.5] * outs]], writes=True))
         S.append(mk("loadvalues~xfmt", "-l", "loadvalues", mats=[["-vf", "m", "vals", nload, outs, values_at(info, lp, model)]], writes=True, matfmt="other"))
     S.append(mk("evaluate", "-evaluate", "evaluate", mats=[xm], of=True, out="matrix"))
@@ -364,6 +372,12 @@ def steps_for(info, cand, tier):
                 of=True, writes=True, out="matrix"))
     S.append(mk("refine", "-refine", "refine", [["-type", "s", "type", "iptotal"], ["-tolerance", "d", "tol", "0.01"], ["-reftype", "s", "reftype", "classic"]] + ro,
                 of=True, writes=True, out="matrix"))
+    if not glob and fam in ("sequence", "fourier"):
+        # without -refout: "for sequence grids defaults to -1" = all outputs (differs from output 0 when the outputs have different anisotropy)
+        S.append(mk("refineaniso-noout", "-refineaniso", "refineaniso", [["-type", "s", "type", "iptotal"], ["-mingrowth", "i", "mingrowth", "2"]], of=True, writes=True, out="matrix"))
+        S.append(mk("refine-noout", "-refine", "refine", [["-type", "s", "type", "iptotal"], ["-tolerance", "d", "tol", "0.01"], ["-reftype", "s", "reftype", "classic"]],
+                    of=True, writes=True, out="matrix"))
+        S.append(mk("refinesurp-noout-tight", "-refinesurp", "refinesurp", [["-tolerance", "d", "tol", "0.0005"], ["-reftype", "s", "reftype", "classic"]], of=True, writes=True, out="matrix"))
     S.append(mk("cancelrefine", "-cancelrefine", "cancelrefine", writes=True))
     S.append(mk("mergerefine", "-mergerefine", "mergerefine", writes=True))
     S.append(mk("getconstructpnts", "-getconstructpnts", "getconstructpnts",
